@@ -305,23 +305,26 @@ fn wait_until<F: FnMut(&mut St) -> bool>(mut pred: F) -> Result<(), u64> {
     Err(t0.elapsed().as_secs())
 }
 
-/// After drop has returned and the caller thread has been joined: wait until only the `expected` threads
-/// (main + detached recovery threads) are left and every panic has been followed by a respawn (otherwise a
-/// new worker is about to appear).  /proc is the observation; the hook counts only say when polling may stop.
-fn wait_quiescent(expected: usize) -> Result<(), (usize, u64)> {
+/// After drop has returned and the caller thread has been joined: wait until every submitted task has been
+/// entered (the bodies count that themselves), every panic has been followed by a respawn whose new thread
+/// has shown up, and only the `expected` threads (main + detached recovery threads) are left in /proc.
+fn wait_quiescent(expected: usize, submitted: usize, c: &Counters) -> Result<(), (usize, u64)> {
     let t0 = Instant::now();
     let total: u64 = WAITS.iter().sum();
     let mut stable = 0;
     loop {
-        let (markers, respawns) = {
+        // every panic has been followed by a respawn and every respawned worker has reported from its new
+        // thread (Rec_Respawn is reported just before the thread is created)
+        let recovered = {
             let st = lock();
-            (
-                st.events.iter().filter(|e| e.ev == "Marker_Send").count(),
-                st.events.iter().filter(|e| e.ev == "Rec_Respawn").count(),
-            )
+            let markers = st.events.iter().filter(|e| e.ev == "Marker_Send").count();
+            let respawns = st.events.iter().filter(|e| e.ev == "Rec_Respawn").count();
+            markers == respawns
+                && st.events.iter().enumerate().filter(|(_, e)| e.ev == "Rec_Respawn").all(|(i, e)| st.events[i + 1..].iter().any(|f| f.th == e.a))
         };
+        let entered = (1..=submitted).all(|t| c.ran(t) >= 1);
         let threads = total_threads();
-        if threads == expected && markers == respawns {
+        if threads == expected && recovered && entered {
             stable += 1;
             if stable >= 2 {
                 return Ok(());
@@ -482,12 +485,12 @@ fn random_mode(args: &[String]) {
         drop(tx);
         caller.join().ok();
         // every worker thread must end, every submitted task must have been entered
-        match wait_quiescent(1 + recovery_threads) {
+        match wait_quiescent(1 + recovery_threads, tasks, &counters) {
             Ok(()) => {}
             Err((live, waited)) => {
                 driver_event("C_Hang", 2, live as i64);
                 flush_run(&mut out, n, tasks, &pan);
-                hang = Some(json!({"run": run, "what": "worker threads still alive after drop() returned", "live": live,
+                hang = Some(json!({"run": run, "what": "after drop() returned: worker threads still alive, a panicked worker not replaced, or a submitted task never entered", "live": live,
                                    "n": n, "tasks": tasks, "stop": stop, "started": started, "waited_s": waited, "script": script}));
                 break;
             }
@@ -821,7 +824,8 @@ fn run_behaviour(id: i64, b: &Value, out: &mut std::fs::File, recovery_threads: 
         } else if let Err((live, waited)) = {
             drop(tx);
             caller.take().map(|c| c.join().ok());
-            wait_quiescent(1 + *recovery_threads)
+            let submitted = lock().events.iter().filter(|e| e.ev == "Pool_Execute").count();
+            wait_quiescent(1 + *recovery_threads, submitted, &counters)
         } {
             fail = Some(json!({"kind": "hang", "step": done_steps, "action": "exit", "detail": format!("{} worker thread(s) still alive {} s after drop() returned", live, waited)}));
         } else {
